@@ -365,6 +365,99 @@ fn boxed_values(n: usize, ctx: &Ctx) -> Vec<Limbs> {
     dedup(v)
 }
 
+/// Montgomery parameter sets and forms over DIFFERENT moduli: selection returns the chosen operand in every field
+/// (derived == and the Debug rendering see all fields), ct_eq / ct_ne agree with ==; Reciprocal selection likewise.
+fn fam_monty_select<const N: usize>(ctx: &Ctx) {
+    use crypto_bigint::modular::{MontyForm, MontyParams};
+    let fam = "monty_select";
+    if !ctx.want(fam) {
+        return;
+    }
+    let wname = format!("MontyForm<{N}>");
+    let bits_ = 64 * N;
+    let ms: Vec<num_bigint::BigUint> = vec![
+        num_bigint::BigUint::from(3u32),
+        num_bigint::BigUint::from(0x65u32),
+        pow2(bits_) - 1u32,
+        pow2(bits_ - 1) + 1u32,
+        (pow2(bits_) / 3u32) | num_bigint::BigUint::from(1u32),
+        pow2(63) + 1u32,
+        pow2(64) - 1u32,
+    ]
+    .into_iter()
+    .filter(|m| m.bits() as usize <= bits_)
+    .collect();
+    let raws: Vec<u64> = vec![0, 1, 2];
+    let k = ms.len();
+    ctx.par_for(fam, &wname, k * k, |i, l| {
+        let (mp, mq) = (&ms[i / k], &ms[i % k]);
+        let (lp, lq) = (from_big(mp, N), from_big(mq, N));
+        let ins: [&[u64]; 2] = [&lp, &lq];
+        let mut cs = Case::new(l, P, fam, &wname, &ins);
+        cs.l.nontrivial += (mp != mq) as u64;
+        let pp = MontyParams::<N>::new_vartime(Odd::new(u::<N>(&lp)).unwrap());
+        let pq = MontyParams::<N>::new_vartime(Odd::new(u::<N>(&lq)).unwrap());
+        let b = |v: bool| Out::Val(vec![v as u64]);
+        for ch in [0u8, 1] {
+            let c = Choice::from(ch);
+            let want = if ch == 0 { pp } else { pq };
+            cs.group();
+            chk!(cs, "MontyParams::conditional_select (== chosen)", &b(true), b(MontyParams::conditional_select(&pp, &pq, c) == want));
+            chk!(cs, "MontyParams::conditional_select (Debug == chosen)", &b(true), b(format!("{:?}", MontyParams::conditional_select(&pp, &pq, c)) == format!("{want:?}")));
+            chk!(cs, "MontyParams::conditional_assign (== chosen)", &b(true), b({
+                let mut t = pp;
+                t.conditional_assign(&pq, c);
+                t == want
+            }));
+        }
+        cs.group();
+        chk!(cs, "MontyParams::ct_eq == (==)", &b(pp == pq), b(bool::from(pp.ct_eq(&pq))));
+        for &ra in &raws {
+            for &rb in &raws {
+                if num_bigint::BigUint::from(ra) >= *mp || num_bigint::BigUint::from(rb) >= *mq {
+                    continue;
+                }
+                let x = MontyForm::from_montgomery(u::<N>(&resize(&[ra], N)), pp);
+                let y = MontyForm::from_montgomery(u::<N>(&resize(&[rb], N)), pq);
+                cs.group();
+                chk!(cs, "MontyForm::ct_eq == (==)", &b(x == y), b(bool::from(x.ct_eq(&y))));
+                chk!(cs, "MontyForm::ct_ne == (!=)", &b(x != y), b(bool::from(x.ct_ne(&y))));
+                for ch in [0u8, 1] {
+                    let c = Choice::from(ch);
+                    let want = if ch == 0 { x } else { y };
+                    cs.group();
+                    chk!(cs, "MontyForm::conditional_select (== chosen)", &b(true), b(MontyForm::conditional_select(&x, &y, c) == want));
+                    chk!(cs, "MontyForm::conditional_select (Debug == chosen)", &b(true), b(format!("{:?}", MontyForm::conditional_select(&x, &y, c)) == format!("{want:?}")));
+                    chk!(cs, "MontyForm::conditional_assign (== chosen)", &b(true), b({
+                        let mut t = x;
+                        t.conditional_assign(&y, c);
+                        t == want
+                    }));
+                    chk!(cs, "MontyForm::conditional_swap (both == expected)", &b(true), b({
+                        let (mut s1, mut s2) = (x, y);
+                        MontyForm::conditional_swap(&mut s1, &mut s2, c);
+                        if ch == 0 { s1 == x && s2 == y } else { s1 == y && s2 == x }
+                    }));
+                }
+            }
+        }
+        // Reciprocal of the low limbs of the two moduli: selection must carry every field of the chosen one
+        let (d1, d2) = (lp[0] | 1, lq[0] | 1);
+        let r1 = crypto_bigint::Reciprocal::new(NonZero::new(Limb(d1)).unwrap());
+        let r2 = crypto_bigint::Reciprocal::new(NonZero::new(Limb(d2)).unwrap());
+        for ch in [0u8, 1] {
+            let want = if ch == 0 { r1 } else { r2 };
+            cs.group();
+            chk!(cs, "Reciprocal::conditional_select (== chosen)", &b(true), b(crypto_bigint::Reciprocal::conditional_select(&r1, &r2, Choice::from(ch)) == want));
+            // and it still divides by the chosen divisor
+            let dv = if ch == 0 { d1 } else { d2 };
+            let a = u::<N>(&vec![MAX; N]);
+            let sel = crypto_bigint::Reciprocal::conditional_select(&r1, &r2, Choice::from(ch));
+            chk!(cs, "div_rem_limb_with_reciprocal(selected)", &Out::Val(vec![(to_big(&vec![MAX; N]) % dv).to_u64_digits().first().copied().unwrap_or(0)]), Out::Val(vec![a.div_rem_limb_with_reciprocal(&sel).1.0]));
+        }
+    });
+}
+
 fn fam_boxed(ctx: &Ctx) {
     if !ctx.want("boxed_cmp") {
         return;
@@ -485,5 +578,8 @@ fn main() {
         dispatch!(n, [1, 2, 3, 4, 8, 16], fam_uint(ctx));
     }
     fam_boxed(ctx);
+    fam_monty_select::<1>(ctx);
+    fam_monty_select::<2>(ctx);
+    fam_monty_select::<4>(ctx);
     std::process::exit(ctx.finish());
 }
